@@ -513,6 +513,43 @@ def gen_float_case(rng, nobjs, dirs):
     return nobjs, list(dirs), ref, st
 
 
+# "large offset" family: every objective shifted by a huge common offset (the ranges stay 1/2 .. 8 units, powers of two).
+# The unchanged normalisation (o - min) / (max - min) is EXACT on these inputs (o - min is exact, the division by a power of
+# two is exact) although |o| / range is ~1e12..1e15; an algebraically equivalent o*scale - min*scale is not.
+OFFSETS = [2.0 ** 40, -2.0 ** 40, 2.0 ** 45, -2.0 ** 45, 2.0 ** 50, -2.0 ** 50, float(round(1e15)), -float(round(1e15)), 4e12, -4e12]
+
+
+def _shift_vec(v, off):
+    """v + off coordinate-wise, or None if some sum is not a binary64 number"""
+    out = []
+    for x, o in zip(v, off):
+        y = x + o
+        if Fraction(y) != Fraction(x) + Fraction(o):
+            return None
+        out.append(y)
+    return out
+
+
+def _shift_members(ms, off):
+    out = []
+    for sid, o, cv in ms:
+        v = _shift_vec(o, off)
+        if v is None:
+            return None
+        out.append((sid, v, cv))
+    return out
+
+
+def shift_case(case, rng):
+    nobjs, dirs, ref, st = case
+    for attempt in range(6):
+        off = [rng.choice(OFFSETS if attempt < 4 else OFFSETS[:2]) for _ in range(nobjs)]
+        r2, s2 = _shift_members(ref, off), _shift_members(st, off)
+        if r2 is not None and s2 is not None:
+            return nobjs, list(dirs), r2, s2
+    return None
+
+
 FIXED = [
     # DESIGN.md section 7 #5: maximised objectives (max-form of a minimised case must give the same value)
     (2, [True, True], [(100, [0.0, 1.0], 0.0), (101, [1.0, 0.0], 0.0)], [(0, [0.5, 0.0], 0.0), (1, [0.0, 0.5], 0.0)]),
@@ -592,8 +629,12 @@ def check_history(ctx, nobjs, dirs, ref, st, actions, tag):
             return
 
 
+LARGE = {"n": 0}
+
+
 def run(ctx):
     rng = ctx.rng
+    LARGE["n"] = 0
     HIST["sequences"] = 0
     HIST["reuse"] = 0
     cases = [(n, list(d), list(r), list(s)) for n, d, r, s in FIXED]
@@ -604,6 +645,11 @@ def run(ctx):
             k = max(2, per * 4 // len(alld)) if nobjs >= 3 else per * (2 if nobjs == 2 else 3)
             for _ in range(k):
                 cases.append(gen_grid_case(rng, nobjs, dirs))
+                if rng.random() < 0.3:
+                    sc = shift_case(cases[-1], rng)
+                    if sc is not None:
+                        cases.append(sc)
+                        LARGE["n"] += 1
     dist = {"n_objs": {}, "ref_size": {}, "set_size": {}, "direction_vectors": set(), "no_feasible_member": 0, "with_infeasible": 0,
             "with_repeated_object": 0, "with_reference_object_in_set": 0, "outside_reference_bounds": 0, "rejected_reference_set": 0}
     eps_l, gd_l, sp_l = [], [], []
@@ -670,6 +716,7 @@ def run(ctx):
                   [(0, [0.25, 0.75], 0.0), (1, [0.75, 0.5], 0.0)], list(ACTIONS), "[fixed history]")
     dist["direction_vectors"] = len(dist["direction_vectors"])
     dist["discarded_inexact"] = inexact
+    dist["large_offset_cases(objectives around +-2^40..2^50, 1e15, 4e12 with ranges 1/2..8; spacing part skipped: raw magnitudes)"] = LARGE["n"]
     for c in cases[len(FIXED):len(FIXED) + 2] + cases[-2:]:
         ctx.sample(show(*c))
     if gd_l:
@@ -689,7 +736,8 @@ def run(ctx):
                                            "rationals; eps and all squared/L1 distances are compared exactly")
     ctx.rule = ("function cases on dyadic grids: 1-5 objectives x every direction vector; reference sets of 0-7 members whose feasible members span power-of-two ranges "
                 "([0,1],[0,2],[-1,1],[0,4],[1,2],[-2,2],[0,.5]) plus rejected ones (empty, no feasible member, degenerate range); sets of 0-7 listed solutions inside/outside the "
-                "reference bounds with infeasible members, duplicates, the same object twice, reference objects listed in the set, no feasible member. A case is kept only if every float "
+                "reference bounds with infeasible members, duplicates, the same object twice, reference objects listed in the set, no feasible member; a 'large offset' family (the same sets with every objective shifted by +-2^40, 2^45, 2^50, 1e15 or 4e12: "
+                "the unchanged (o-min)/(max-min) is exact there). A case is kept only if every float "
                 "operation is exact (decided on Fractions: o-min, max-min, quotient are binary64 numbers; normalised coordinates dyadic with <= 12 fractional bits), else discarded and counted. "
                 "non-trivial = accepted reference set, at least one feasible member AND (a maximised objective, a member outside the bounds, an infeasible member or a repeated object); "
                 "distinct by full input. evaluations counts every call of a real indicator class")
